@@ -371,12 +371,8 @@ func (w *World) verifyBound(f *FilterRT, sid, tok string, login bool) string {
 	if it == nil {
 		return "token was not issued by the provider"
 	}
-	if sm != nil {
-		ch := f.IdP.Chain(it.Chain)
-		if ch != nil && ch.Nonce != sm.Nonce {
-			return "token belongs to another session's grant"
-		}
-	}
+	// (which session's grant the token came from is not judged on the refresh path: the property binds
+	// the nonce at login only)
 	return ""
 }
 
